@@ -926,6 +926,9 @@ func (e routeEngine) Run(ops []string) (ans []string, oracle []string) {
 			}
 		case "q", "serve":
 			m, p := mustUnhx(f[1]), mustUnhx(f[2])
+			// the routing table is printed (Router.String(), what handlers.DumpRoutesHandler shows) before every lookup:
+			// printing is read-only
+			_ = guarded(func() string { return im.r.String() })
 			fn := im.quick
 			if f[0] == "serve" {
 				fn = im.serve
